@@ -406,6 +406,10 @@ func c17Request(ctx context.Context, base, rpc, reqproto string, raw *conformanc
 	case "unary":
 		method = "Unary"
 		msgs = []proto.Message{&conformancev1.UnaryRequest{ResponseDefinition: unaryDef, RequestData: []byte("req")}}
+	case "idem":
+		// the other unary procedure: its request carries the same kind of response definition
+		method = "IdempotentUnary"
+		msgs = []proto.Message{&conformancev1.IdempotentUnaryRequest{ResponseDefinition: unaryDef, RequestData: []byte("req")}}
 	case "cstream":
 		method = "ClientStream"
 		msgs = []proto.Message{&conformancev1.ClientStreamRequest{ResponseDefinition: unaryDef, RequestData: []byte("req1")},
@@ -421,7 +425,7 @@ func c17Request(ctx context.Context, base, rpc, reqproto string, raw *conformanc
 		return nil, fmt.Errorf("rpc %q", rpc)
 	}
 	var body []byte
-	enveloped := rpc != "unary" || reqproto != "connect"
+	enveloped := (rpc != "unary" && rpc != "idem") || reqproto != "connect"
 	for _, m := range msgs {
 		b, err := proto.Marshal(m)
 		if err != nil {
@@ -439,7 +443,7 @@ func c17Request(ctx context.Context, base, rpc, reqproto string, raw *conformanc
 	}
 	switch reqproto {
 	case "connect":
-		if rpc == "unary" {
+		if rpc == "unary" || rpc == "idem" {
 			req.Header.Set("Content-Type", "application/proto")
 		} else {
 			req.Header.Set("Content-Type", "application/connect+proto")
@@ -457,7 +461,7 @@ func c17Request(ctx context.Context, base, rpc, reqproto string, raw *conformanc
 
 func c17Combos(fl string) [][2]string {
 	var res [][2]string
-	for _, rpc := range []string{"unary", "cstream", "sstream", "bidi"} {
+	for _, rpc := range []string{"unary", "idem", "cstream", "sstream", "bidi"} {
 		for _, rp := range []string{"connect", "grpcweb", "grpc"} {
 			if rp == "grpc" && strings.HasPrefix(fl, "h1") {
 				continue // gRPC needs HTTP/2
